@@ -16,6 +16,7 @@ import (
 	"sort"
 	"strings"
 	"sync"
+	"time"
 
 	"github.com/bytedance/sonic/ast"
 
@@ -30,8 +31,9 @@ var (
 	outp   = flag.String("out", "/dev/stdout", "")
 	casef  = flag.String("case", "", "")
 	reps   = flag.Int("reps", 50, "")
+	caseTO = flag.Int("casetimeout", 20, "seconds after which a case that has not finished is recorded as a hang")
 	casesf = flag.String("cases", "", "file receiving one JSON line per generated case")
-	scen   = flag.String("scenarios", "rawcr,searcher,load,loadall", "comma separated scenario list")
+	scen   = flag.String("scenarios", "rawcr,searcher,searchercopy,load,loadall", "comma separated scenario list")
 )
 
 type Op struct {
@@ -46,6 +48,7 @@ type Case struct {
 	Scenario string `json:"scenario"`
 	Threads  [][]Op `json:"threads"`
 	Seed     uint64 `json:"seed"`
+	Shape    string `json:"shape,omitempty"`
 }
 
 type Failure struct {
@@ -68,6 +71,8 @@ type Report struct {
 	Failures   []Failure      `json:"failures"`
 	NFail      int            `json:"n_fail"`
 	Samples    []Failure      `json:"samples"`
+	Hang       *Failure       `json:"hang,omitempty"`
+	Shapes     map[string]int `json:"case_shapes"`
 }
 
 var terminals = []string{"Raw", "MarshalJSON", "Interface", "InterfaceUseNumber", "Map", "MapUseNumber", "Array", "ArrayUseNumber",
@@ -84,6 +89,11 @@ func build(c *Case) (*ast.Node, error) {
 		s := ast.NewSearcher(`{"w":[0,` + c.Doc + `]}`)
 		s.ConcurrentRead = true
 		n, err := s.GetByPath("w", 1)
+		return &n, err
+	case "searchercopy":
+		s := ast.NewSearcher(`{"w":[0,` + c.Doc + `]}`)
+		s.ConcurrentRead = true
+		n, err := s.GetByPathCopy("w", 1)
 		return &n, err
 	case "load":
 		n := ast.NewRaw(c.Doc)
@@ -326,16 +336,79 @@ func randPath(r *rng.R, v interface{}) []interface{} {
 	return path
 }
 
+// a document with objects of more than 16 members (the key index of linkedPairs) and, when big, long enough for the
+// raw -> parsed conversion to take a while
+func wideDoc(r *rng.R, big bool) string {
+	var b strings.Builder
+	var val func(depth int)
+	obj := func(depth, n int) {
+		b.WriteString("{")
+		for i := 0; i < n; i++ {
+			if i > 0 {
+				b.WriteString(",")
+			}
+			if r.Chance(1, 4) {
+				b.WriteString("\n  ")
+			}
+			fmt.Fprintf(&b, "\"k%d_%d\":", i, depth)
+			val(depth + 1)
+		}
+		b.WriteString("}")
+	}
+	val = func(depth int) {
+		switch k := r.Intn(10); {
+		case depth < 2 && k < 2 && !(big && depth >= 1 && r.Chance(1, 2)):
+			obj(depth, 17+r.Intn(12))
+		case depth < 3 && k < 4:
+			n := r.Intn(6)
+			b.WriteString("[")
+			for i := 0; i < n; i++ {
+				if i > 0 {
+					b.WriteString(", ")
+				}
+				val(depth + 1)
+			}
+			b.WriteString("]")
+		case k < 6:
+			fmt.Fprintf(&b, "%d", int64(r.U64()>>uint(r.Intn(60)))-1000)
+		case k < 8:
+			n := r.Intn(12)
+			if big {
+				n = 20 + r.Intn(160)
+			}
+			fmt.Fprintf(&b, "%q", strings.Repeat("s", n)+fmt.Sprint(r.Intn(99)))
+		case k == 8:
+			b.WriteString([]string{"true", "false", "null", "1.5e3", "-0.25"}[r.Intn(5)])
+		default:
+			obj(depth, r.Intn(4))
+		}
+	}
+	n := 17 + r.Intn(24)
+	if big {
+		n = 30 + r.Intn(40)
+	}
+	obj(0, n)
+	return b.String()
+}
+
 func genCase(r *rng.R, id int, scenarios []string) Case {
 	o := jgen.Default
 	o.MaxDepth = 4
 	o.DupKeys = false // Get on duplicate keys is C14/C15's subject
+	shape := []string{"mixed", "mixed", "mixed", "sequential", "wide-object", "wide-object", "window"}[r.Intn(7)]
 	var doc string
 	var v interface{}
 	for {
-		doc = strings.TrimSpace(jgen.Doc(r, &o))
-		if r.Chance(2, 3) && doc[0] != '{' && doc[0] != '[' {
-			continue // mostly containers
+		switch shape {
+		case "wide-object":
+			doc = wideDoc(r, false)
+		case "window":
+			doc = wideDoc(r, true)
+		default:
+			doc = strings.TrimSpace(jgen.Doc(r, &o))
+			if r.Chance(2, 3) && doc[0] != '{' && doc[0] != '[' {
+				continue // mostly containers
+			}
 		}
 		d := json.NewDecoder(strings.NewReader(doc))
 		d.UseNumber()
@@ -343,21 +416,95 @@ func genCase(r *rng.R, id int, scenarios []string) Case {
 			break
 		}
 	}
-	c := Case{ID: id, Doc: doc, Scenario: scenarios[r.Intn(len(scenarios))], Seed: r.U64()}
-	nth := 2 + r.Intn(7)
-	for t := 0; t < nth; t++ {
-		var ops []Op
-		for k := 1 + r.Intn(6); k > 0; k-- {
-			op := Op{Path: randPath(r, v), Kind: terminals[r.Intn(len(terminals))]}
-			if len(op.Path) > 0 {
-				op.Nav = []string{"", "Get", "Index", "IndexOrGet"}[r.Intn(4)]
-			}
-			if r.Chance(1, 3) {
-				op.Kind = []string{"Raw", "MarshalJSON", "Interface"}[r.Intn(3)]
-			}
-			ops = append(ops, op)
+	c := Case{ID: id, Doc: doc, Scenario: scenarios[r.Intn(len(scenarios))], Seed: r.U64(), Shape: shape}
+	randOp := func() Op {
+		op := Op{Path: randPath(r, v), Kind: terminals[r.Intn(len(terminals))]}
+		if len(op.Path) > 0 {
+			op.Nav = []string{"", "Get", "Index", "IndexOrGet"}[r.Intn(4)]
 		}
-		c.Threads = append(c.Threads, ops)
+		if r.Chance(1, 3) {
+			op.Kind = []string{"Raw", "MarshalJSON", "Interface"}[r.Intn(3)]
+		}
+		return op
+	}
+	rootKeys := func() []string {
+		m, _ := v.(map[string]interface{})
+		keys := make([]string, 0, len(m))
+		for k := range m {
+			keys = append(keys, k)
+		}
+		sort.Strings(keys)
+		return keys
+	}
+	switch shape {
+	case "sequential":
+		// ONE goroutine: a text read (Raw / MarshalJSON) followed by parsing accessors on the same node, then text reads again
+		var ops []Op
+		sub := randPath(r, v)
+		for _, path := range [][]interface{}{{}, sub} {
+			ops = append(ops, Op{Path: path, Kind: []string{"Raw", "MarshalJSON"}[r.Intn(2)]})
+			ops = append(ops, Op{Path: path, Kind: []string{"Interface", "Map", "Array", "Int64", "String", "Exists", "InterfaceUseNumber"}[r.Intn(7)]})
+			ops = append(ops, randOp())
+			ops = append(ops, Op{Path: path, Kind: []string{"Raw", "MarshalJSON"}[r.Intn(2)]})
+		}
+		c.Threads = [][]Op{ops}
+		if r.Chance(1, 3) { // the same prefix on a second goroutine
+			c.Threads = append(c.Threads, append([]Op(nil), ops...))
+		}
+	case "wide-object":
+		// many goroutines issue their FIRST Get on an object with more than 16 members at the same time
+		keys := rootKeys()
+		nth := 4 + r.Intn(5)
+		for t := 0; t < nth; t++ {
+			var ops []Op
+			for k := 2 + r.Intn(5); k > 0; k-- {
+				key := "no-such-key"
+				if len(keys) > 0 && !r.Chance(1, 8) {
+					key = keys[r.Intn(len(keys))]
+				}
+				op := Op{Path: []interface{}{key}, Nav: []string{"Get", "", "IndexOrGet"}[r.Intn(3)], Kind: terminals[r.Intn(len(terminals))]}
+				if r.Chance(1, 3) { // one level deeper: nested wide objects get their first lookups concurrently too
+					if m, ok := v.(map[string]interface{})[key].(map[string]interface{}); ok && len(m) > 0 {
+						sub := make([]string, 0, len(m))
+						for k2 := range m {
+							sub = append(sub, k2)
+						}
+						sort.Strings(sub)
+						op.Path = []interface{}{key, sub[r.Intn(len(sub))]}
+					}
+				}
+				ops = append(ops, op)
+			}
+			c.Threads = append(c.Threads, ops)
+		}
+	case "window":
+		// a big document: one or two goroutines start the raw -> parsed conversion while the others read the text
+		nth := 5 + r.Intn(4)
+		for t := 0; t < nth; t++ {
+			var ops []Op
+			if t < 1+r.Intn(2) {
+				ops = append(ops, Op{Kind: []string{"Interface", "Map", "Exists"}[r.Intn(3)], Path: []interface{}{}, Nav: ""})
+				if keys := rootKeys(); len(keys) > 0 {
+					ops[0] = Op{Path: []interface{}{keys[r.Intn(len(keys))]}, Nav: "Get", Kind: "Exists"}
+				}
+			} else {
+				for k := r.Intn(4); k > 0; k-- { // stagger the readers a little
+					ops = append(ops, Op{Path: []interface{}{"no-such-key-xx"}, Kind: "Exists", Nav: ""})
+				}
+				ops = append(ops, Op{Path: []interface{}{}, Kind: []string{"MarshalJSON", "MarshalJSON", "Raw"}[r.Intn(3)]})
+			}
+			ops = append(ops, randOp(), Op{Path: []interface{}{}, Kind: "MarshalJSON"})
+			c.Threads = append(c.Threads, ops)
+		}
+	default:
+		nth := 1 + r.Intn(8)
+		for t := 0; t < nth; t++ {
+			var ops []Op
+			for k := 1 + r.Intn(6); k > 0; k-- {
+				ops = append(ops, randOp())
+			}
+			c.Threads = append(c.Threads, ops)
+		}
 	}
 	return c
 }
@@ -426,12 +573,44 @@ func runConcurrent(c *Case) ([][]string, error) {
 func runCase(c *Case, rep *Report) {
 	fmt.Fprintf(os.Stderr, "CASE %d BEGIN\n", c.ID)
 	defer fmt.Fprintf(os.Stderr, "CASE %d END\n", c.ID)
-	ref, err := reference(c)
+	// watchdog: a case whose goroutines do not finish is a hang (a leaked lock, a lost wake-up): record it and stop
+	type both struct {
+		ref, got   [][]string
+		rerr, gerr error
+	}
+	done := make(chan both, 1)
+	stage := "sequential reference (each operation alone on a fresh node)"
+	var stageMu sync.Mutex
+	go func() {
+		var b both
+		b.ref, b.rerr = reference(c)
+		if b.rerr == nil {
+			stageMu.Lock()
+			stage = "operations of the case on the shared node"
+			stageMu.Unlock()
+			b.got, b.gerr = runConcurrent(c)
+		}
+		done <- b
+	}()
+	var res both
+	select {
+	case res = <-done:
+	case <-time.After(time.Duration(*caseTO) * time.Second):
+		stageMu.Lock()
+		st := stage
+		stageMu.Unlock()
+		fmt.Fprintf(os.Stderr, "CASE %d HANG\n", c.ID)
+		rep.Hang = &Failure{Case: *c, Thread: -1, Got: fmt.Sprintf("hang: not finished after %d s in: %s", *caseTO, st)}
+		rep.NFail++
+		writeReport(rep)
+		os.Exit(5)
+	}
+	ref, err := res.ref, res.rerr
 	if err != nil {
 		rep.Outcome["build-error"]++
 		return
 	}
-	got, err := runConcurrent(c)
+	got, err := res.got, res.gerr
 	if err != nil {
 		rep.NFail++
 		if len(rep.Failures) < 20 {
@@ -464,6 +643,10 @@ func runCase(c *Case, rep *Report) {
 	}
 }
 
+func writeReport(rep *Report) {
+	writeReport(rep)
+}
+
 func sizeBucket(n int) string {
 	switch {
 	case n < 16:
@@ -474,14 +657,16 @@ func sizeBucket(n int) string {
 		return "64-255"
 	case n < 1024:
 		return "256-1023"
+	case n < 16384:
+		return "1024-16383"
 	}
-	return ">=1024"
+	return ">=16384"
 }
 
 func main() {
 	flag.Parse()
 	rep := &Report{PerKind: map[string]int{}, PerScen: map[string]int{}, Goroutines: map[string]int{}, DocSize: map[string]int{},
-		Outcome: map[string]int{}, Failures: []Failure{}, Samples: []Failure{}}
+		Outcome: map[string]int{}, Failures: []Failure{}, Samples: []Failure{}, Shapes: map[string]int{}}
 	switch *mode {
 	case "run":
 		r := rng.New(*seed)
@@ -503,6 +688,7 @@ func main() {
 			}
 			rep.Cases++
 			rep.PerScen[c.Scenario]++
+			rep.Shapes[c.Shape]++
 			rep.Goroutines[fmt.Sprint(len(c.Threads))]++
 			rep.DocSize[sizeBucket(len(c.Doc))]++
 			if !seen[c.Doc+c.Scenario] && len(c.Doc) > 2 {
